@@ -37,6 +37,7 @@ type Profile struct {
 	CommErrors        bool   // the transport sometimes reports an error for a send that went out
 	CommitteeErrors   bool   // a committee request fails once in a while (the library retries after 200 ms of real time: used sparingly)
 	SplitHandoff      bool   // model the main-loop -> worker hand-off of syncs and election triggers as two separate steps
+	SplitPct          int    // ... in this percentage of the cases only
 	LenientValidators bool   // in a third of the cases the consumers' validators do not object to a missing block
 	NoRejects         bool   // correct validators never reject good blocks
 	HonestOnly        bool   // no Byzantine ids at all
@@ -228,7 +229,7 @@ func RunCase(seed int64, p *Profile, idx int) *Result {
 	cfg := GenConfig(rng, p)
 	w := NewWorld(cfg, rng)
 	w.KeepTrace = p.KeepTrace
-	w.SplitHandoff = p.SplitHandoff
+	w.SplitHandoff = p.SplitHandoff || (p.SplitPct > 0 && rng.Intn(100) < p.SplitPct)
 	w.ReverseToLaggers = p.ReverseToLaggers
 	res := &Result{Case: idx, Seed: cs, Cfg: cfg, StateSet: map[[16]byte]bool{}}
 	adv := NewAdversary(w, p)
